@@ -11,7 +11,7 @@ import (
 
 func init() {
 	register("C16", propMeta{
-		Explanation: "Decides writer/exporter/importer agreement per key kind: the kinds of keys that consensus code writes at run time (computed from the abstractly evaluated key shapes of every Set reachable from the Msg handlers, application callbacks and light-client methods) are enumerated per store (tibc core store incl. client sub-stores, nft-transfer store, mt-transfer store); for every such kind some function reachable from the owning module's ExportGenesis (core ExportGenesis, the light clients' ExportMetadata) must read keys of that kind (an iterator or getter whose prefix/filter constants name the kind) and some Set reachable from the module's InitGenesis must write that kind (directly, or through the generic client-metadata import for kinds exported as metadata); a store-owning module must have ExportGenesis/InitGenesis at all; an export iterator may not select keys that contain a binary (fixed-width big-endian) part by counting '/'-separated segments of an unbounded strings.Split. Kinds without export/import are reported one by one. For the packet genesis additionally: each exported list comes from the getter that reads the key class its importing setter writes, each record's source/destination/sequence go to the setter parameter of the same role, and each record is restored under no condition on its contents. NOT decided: that the exported values are complete and that the re-imported chain answers every query and message identically (behavioural, needs execution).",
+		Explanation: "Decides writer/exporter/importer agreement per key kind: the kinds of keys that consensus code writes at run time (computed from the abstractly evaluated key shapes of every Set reachable from the Msg handlers, application callbacks and light-client methods) are enumerated per store (tibc core store incl. client sub-stores, nft-transfer store, mt-transfer store); for every such kind some function reachable from the owning module's ExportGenesis (core ExportGenesis, the light clients' ExportMetadata) must read keys of that kind (an iterator or getter whose prefix/filter constants name the kind) and some Set reachable from the module's InitGenesis must write that kind (directly, or through the generic client-metadata import for kinds exported as metadata); a store-owning module must have ExportGenesis/InitGenesis at all; an export iterator may not select keys that contain a binary (fixed-width big-endian) part by counting '/'-separated segments of an unbounded strings.Split. Kinds without export/import are reported one by one. For the packet genesis additionally: each exported list comes from the getter that reads the key class its importing setter writes, each record's source/destination/sequence go to the setter parameter of the same role, and each record is restored under no condition on its contents; the relayer registry is restored with one RegisterRelayers call per genesis entry carrying the entry's whole list; no iteration callback on the export path (core ExportGenesis, the light clients' ExportMetadata) can return 'stop'. NOT decided: that the exported values are complete and that the re-imported chain answers every query and message identically (behavioural, needs execution).",
 		Assumptions: []string{"the SDK module manager calls each module's InitGenesis/ExportGenesis"},
 		Trusted:     commonTrusted,
 	}, ruleC16)
